@@ -345,6 +345,27 @@ fn encoder_overflow_inputs(rng: &mut Rng, n: usize) -> Vec<Vec<u32>> {
     }
     v
 }
+/// the encoder's `delta + product` check (distinct from the product check): a small non-basic code
+/// point first, k basic ones (each adds 1 to delta), then a code point so high that
+/// (high - low - 1) * (k + 2) lies within k + 1 of u32::MAX
+fn encoder_add_overflow_family(thorough: bool) -> Vec<Vec<u32>> {
+    let mut v = Vec::new();
+    let ks: Vec<u64> = if thorough { (3854..3876).collect() } else { vec![3854, 3855, 3856, 3860] };
+    for low in [0xe9u64, 0x80] {
+        for &k in &ks {
+            let q = (u32::MAX as u64) / (k + 2);
+            for high in [low + 1 + q, low + q] {
+                if high <= 0x10ffff && !(0xd800..0xe000).contains(&high) {
+                    let mut s = vec![low as u32];
+                    s.extend(std::iter::repeat(0x61u32).take(k as usize));
+                    s.push(high as u32);
+                    v.push(s);
+                }
+            }
+        }
+    }
+    v
+}
 fn internal_label(rng: &mut Rng, maxlen: usize) -> Vec<u32> {
     let n = 1 + rng.below(maxlen);
     let mut v: Vec<u32> = (0..n).map(|_| *rng.pick(&INTERNAL_ALPHABET)).collect();
@@ -469,6 +490,9 @@ fn run_corr(args: &Args) -> Report {
     // encoder overflow boundaries
     for s in encoder_overflow_inputs(&mut rng, if thorough { 60 } else { 6 }) {
         compare(&mut drv, &mut rep, "enc-overflow", &enc_req(&s));
+    }
+    for s in encoder_add_overflow_family(thorough) {
+        compare(&mut drv, &mut rep, "enc-add-overflow", &enc_req(&s));
     }
     // the boundary family around F-C13-1 (encode, and decode of what the encoder gives)
     for s in boundary_family(thorough) {
